@@ -411,6 +411,45 @@ def _system_probe(program, folder, rep):
                             "chip's coordinates where it is obtained; how "
                             "the probes are collected is not analysed in "
                             "that form")
+    # "unresponsive chips are skipped": what the transport raises for a
+    # chip that does not answer (or answers with a fatal code) is caught by
+    # the handler, i.e. is the handler's class or derived from it
+    scp = program.module("rig.machine_control.scp_connection")
+    bases = {}
+    for cd in ast.walk(scp.tree):
+        if isinstance(cd, ast.ClassDef):
+            bases[cd.name] = [chain(b_) for b_ in cd.bases]
+
+    def derives(name, root, seen=()):
+        if name == root:
+            return True
+        if name in seen or name not in bases:
+            return False
+        return any(b_ is not None and derives(b_.split(".")[-1], root,
+                                              seen + (name,))
+                   for b_ in bases[name])
+    burst = program.get("rig.machine_control.scp_connection:"
+                        "SCPConnection.send_scp_burst")
+    from ..util import raises_of as _raises_of, raise_name as _raise_name
+    raised = sorted(set(_raise_name(r_) for r_ in _raises_of(burst)) - {None})
+    if not raised:
+        raise AnalysisError("send_scp_burst: no explicit raise found (the "
+                            "errors of an unanswered command were expected "
+                            "there)")
+    for nm in raised:
+        rep.check(derives(nm, "SCPError"), "C14-R2",
+                  "rig.machine_control.scp_connection:%s" % nm,
+                  "%s, raised by the transport for a command that got no "
+                  "(usable) answer, is an SCPError: the probe's handler "
+                  "catches it and the chip is left out" % nm,
+                  construct="exception class %s(%s)" % (
+                      nm, ", ".join(str(b_) for b_ in bases.get(nm, []))),
+                  node=burst,
+                  fail="%s is raised by send_scp_burst but is not derived "
+                       "from SCPError (bases: %s): 'except SCPError' in "
+                       "get_system_info does not catch it, so one "
+                       "unresponsive chip makes the whole probe fail instead "
+                       "of being left out" % (nm, bases.get(nm)))
     rep.check(okg, "C14-R2", qual(gi), "every chip with a P2P route is "
               "probed under its own coordinates; unresponsive chips are "
               "skipped; size = largest routed coordinate + 1",
